@@ -1,7 +1,9 @@
-CONSTANTS NT = 2 R = 2 Deviations = {"CountDistinctTests"}
+CONSTANTS NT = 2 R = 2 NI = 1 Deviations = {"CountDistinctTests"}
 SPECIFICATION Spec
 INVARIANT CountsAgree
 INVARIANT PassOncePerIteration
 INVARIANT BadCarriesIdentity
+INVARIANT ImportFailuresReported
+INVARIANT NothingUnselected
 INVARIANT WellFormedStrings
 CHECK_DEADLOCK FALSE
